@@ -214,6 +214,27 @@ fn typed<T: ByteValued>(cx: &mut Ctx, code: u64, off: usize, nn: usize, c: usize
             }
             Some(ok)
         }
+        13 => {
+            // nn = slice length in bytes
+            let sl = VolatileMemory::get_slice(&*cx.region, off, nn).ok()?;
+            let bytes = cx.rng.bytes(t * c);
+            let buf: Vec<T> = (0..c).map(|i| mk(&bytes[i * t..i * t + t])).collect();
+            sl.copy_from(&buf);
+            let m = if t == 1 { c.min(nn) } else { c.min(nn / t) * t };
+            cx.shadow[off..off + m].copy_from_slice(&bytes[..m]);
+            Some(true)
+        }
+        14 => {
+            let sl = VolatileMemory::get_slice(&*cx.region, off, nn).ok()?;
+            let mut buf: Vec<T> = (0..c).map(|_| unsafe { std::mem::zeroed() }).collect();
+            let got = sl.copy_to(&mut buf);
+            let m = if t == 1 { c.min(nn) } else { c.min(nn / t) };
+            let mut ok = got == m;
+            for i in 0..m {
+                ok &= buf[i].as_slice() == &cx.shadow[off + i * t..off + i * t + t];
+            }
+            Some(ok)
+        }
         _ => panic!("bad op"),
     }
 }
@@ -290,6 +311,34 @@ fn run_op(cx: &mut Ctx, op: &[u128]) -> Option<bool> {
             let dst = VolatileSlice::from(&mut local[..]);
             s.copy_to_volatile_slice(dst);
             Some(local[..] == cx.shadow[off..off + a])
+        }
+        11 => {
+            // read_volatile_from(off, &mut &src[..b], count = a)
+            let src = cx.rng.bytes(b);
+            let mut rd: &[u8] = &src[..];
+            let got = cx.region.read_volatile_from(MemoryRegionAddress(off as u64), &mut rd, a).ok()?;
+            let exp = (cx.size - off).min(a).min(b);
+            if got > 0 {
+                cx.shadow[off..off + got].copy_from_slice(&src[..got]);
+            }
+            Some(got == exp)
+        }
+        12 => {
+            let mut sink: Vec<u8> = Vec::new();
+            let got = cx.region.write_volatile_to(MemoryRegionAddress(off as u64), &mut sink, a).ok()?;
+            let exp = (cx.size - off).min(a);
+            Some(got == exp && sink.len() == got && (got == 0 || sink[..] == cx.shadow[off..off + got]))
+        }
+        13 | 14 => {
+            macro_rules! go2 {
+                ($($k:literal),*) => {
+                    match b {
+                        $($k => typed::<[u8; $k]>(cx, code, off, a, c),)*
+                        _ => panic!("bad tsize"),
+                    }
+                };
+            }
+            go2!(1, 2, 3, 4, 5, 6, 7, 8, 9, 10, 11, 12, 13, 14, 15, 16)
         }
         _ => panic!("bad op"),
     }
@@ -371,12 +420,15 @@ fn exec(case: &[Tok]) -> Vec<Tok> {
     for t in &case[5..] {
         let l = t.l();
         assert!(l.len() == 5);
-        assert!(l[0] <= 10 && l[1] < (1 << 24) && l[2] < (1 << 20) && l[3] < (1 << 16) && l[4] < (1 << 16));
+        assert!(l[0] <= 14 && l[1] < (1 << 24) && l[2] < (1 << 20) && l[3] < (1 << 16) && l[4] < (1 << 16));
         if (3..=8).contains(&l[0]) {
             assert!((1..=16).contains(&l[2]));
         }
         if l[0] == 9 {
             assert!([1, 2, 4, 8].contains(&l[2]));
+        }
+        if l[0] == 13 || l[0] == 14 {
+            assert!((1..=16).contains(&l[3]));
         }
     }
     let mut fds = [0i32; 2];
@@ -444,6 +496,8 @@ fn zero_len_aligned(size: u64, page: u64, o: &Tok) -> bool {
     match code {
         2 => a == 0 && off <= size && off % page == 0,
         7 | 8 => b == 0 && off <= size && off % page == 0,
+        11 | 12 => off <= size && off % page == 0 && (a == 0 || off == size),
+        13 | 14 => off + a <= size && off % page == 0 && (if b == 1 { a == 0 } else { a / b == 0 }),
         _ => false,
     }
 }
@@ -477,7 +531,11 @@ fn rand_op(rng: &mut Rng, size: u64, page: u64, allow_raw: bool) -> Tok {
     };
     let i = if rng.chance(1, 12) { nn } else { rng.below(nn.max(1)) };
     let k = if rng.bool() { nn + rng.below(3) } else { rng.below(nn + 2) };
-    let code = rng.below(if allow_raw { 11 } else { 9 });
+    let code = match rng.below(if allow_raw { 15 } else { 13 }) {
+        x if x < 9 => x,
+        x if !allow_raw => x + 2,
+        x => x,
+    };
     match code {
         0 | 1 => op(code, off, len, 0, 0),
         2 => op(2, off, len, rng.below(2), 0),
@@ -488,7 +546,10 @@ fn rand_op(rng: &mut Rng, size: u64, page: u64, allow_raw: bool) -> Tok {
             let t = *rng.pick(&[1u64, 2, 4, 8]);
             op(9, if rng.chance(7, 8) { off / t * t } else { off }, t, 0, 0)
         }
-        _ => op(10, off, len, 0, 0),
+        10 => op(10, off, len, 0, 0),
+        11 => op(11, off, len, if rng.bool() { len } else { rng.below(len + 3) }, 0),
+        12 => op(12, off, len, 0, 0),
+        _ => op(code, off, len, t, if rng.bool() { len / t + rng.below(2) } else { rng.below(len / t + 2) }),
     }
 }
 
@@ -497,7 +558,8 @@ fn gen(rng: &mut Rng, tier: Tier, emit: &mut dyn FnMut(Vec<Tok>)) {
     let page = unsafe { libc::sysconf(libc::_SC_PAGESIZE) } as u64;
     let mut case = |rkind: u64, size: u64, gbase: u64, ops: Vec<Tok>| {
         let mut v = vec![n(mode), n(rkind), n(size), n(gbase), n(page)];
-        v.extend(ops);
+        // candidate finding F6a (zero-length guard at a page boundary of an on-demand region): C17xenfind
+        v.extend(ops.into_iter().filter(|o| !(rkind == 3 && zero_len_aligned(size, page, o))));
         emit(v)
     };
     // systematic: every guarded operation x offsets within / across pages, on every region kind
@@ -506,8 +568,11 @@ fn gen(rng: &mut Rng, tier: Tier, emit: &mut dyn FnMut(Vec<Tok>)) {
         let gbase = 0x40 * page;
         for &off in &[0u64, 1, 7, page - 9, page - 8, page - 1, page, page + 1, 2 * page - 3, 3 * page - 16, 3 * page - 1] {
             for &len in &[1u64, 2, 8, 9, 16, page, page + 1, 2 * page] {
-                let mut ops = vec![op(0, off, len, 0, 0), op(1, off, len, 0, 0)];
+                let mut ops = vec![op(0, off, len, 0, 0), op(1, off, len, 0, 0), op(11, off, len, len, 0), op(12, off, len, 0, 0)];
                 if off + len <= size {
+                    ops.push(op(13, off, len, 1, len));
+                    ops.push(op(14, off, len, 4, len / 4 + 1));
+                    ops.push(op(13, off, len, 3, len / 3));
                     ops.push(op(2, off, len, 1, 0));
                     ops.push(op(2, off, len, 0, 0));
                 }
